@@ -102,12 +102,14 @@ def check_prefix_input(out, facts):
     """PrefixInput does not forward the hooks; it is exempt because it is only ever handed to a
     primitive decoder, which calls no hook."""
     n = 0
+    site_fns = set()
     for f in facts.fns:
         if not f.get('thir'):
             continue
         for node, parents in _walk_thir(f['thir'], [], f):
             if node.get('k') == 'adt' and node.get('adt', '').endswith('PrefixInput'):
                 n += 1
+                site_fns.add(f['path'])
                 # nearest enclosing call
                 call = None
                 for p in reversed(parents):
@@ -120,7 +122,19 @@ def check_prefix_input(out, facts):
                 out.ob('R08.1', 'PrefixInput construct site in %s #%d [%s]' % (fkey(f), n, facts.cfg), ok,
                        'PrefixInput (which does not forward descend/ascend/alloc hooks) is handed to something other than a '
                        'primitive integer decoder', node.get('loc', f['loc']))
-    out.floor('R08.1', 'PrefixInput construct sites [%s]' % facts.cfg, n, 9)
+    # non-vacuity: the five compact decoders are the users of PrefixInput; each of them builds one, itself or through a
+    # private helper it calls (the number of textual sites is not meaningful: a fragment shared by all five is one site)
+    from .common import _local_calls
+    users = 0
+    for prim in ('u8', 'u16', 'u32', 'u64', 'u128'):
+        g = facts.impl_method('Decode', 'compact::Compact<%s>' % prim, 'decode')
+        if not g:
+            continue
+        reach = {g['path']} | {c['path'] for c in facts.closures_of(g)} | {h['path'] for h in _local_calls(g, facts)}
+        if reach & site_fns:
+            users += 1
+    out.floor('R08.1', 'compact decoders that build a PrefixInput [%s]' % facts.cfg, users, 5)
+    out.floor('R08.1', 'PrefixInput construct sites [%s]' % facts.cfg, n, 1)
     # its own two methods
     ms = {f['method']: f for f in facts.methods('Input') if f['kind'] == 'AssocFn' and 'PrefixInput' in f['self']}
     out.ob('R08.1', 'PrefixInput overrides [%s]' % facts.cfg, set(ms) == {'remaining_len', 'read'},
